@@ -1,8 +1,8 @@
 (** Property C01 — returned lines are exactly the scanned lines that satisfy the match part.
     Statements only; proofs in Run/RunFacts.v, Match/AdjProofs.v, Match/CoreProofs.v. *)
 From Coq Require Import ZArith List Bool.
-From V Require Import Csv.CsvModel Data.DataModel Scan.ScanModel Run.RunLoop Run.RunFacts
-  Match.Adjudicate Match.AdjProofs Match.Core Match.CoreProofs.
+From V Require Import Csv.CsvModel Data.DataModel Scan.ScanModel Scan.ScanSpec Run.RunLoop Run.RunFacts Run.RunProofs Run.RunFold
+  Match.Adjudicate Match.AdjProofs Match.Core Match.CoreProofs Match.CoreRun.
 Import ListNotations.
 Open Scope Z_scope.
 
@@ -21,6 +21,32 @@ Theorem C01_returned_iff_vote : forall (C X : Type) (m : rs X -> line C -> rs X 
   let e := snd (consider C X m c s l) in ev_returned e = ev_offered e && ev_vote e.
 Proof. exact consider_default_returned. Qed.
 Print Assumptions C01_once_in_order.
+
+(** the property at run level, for EVERY matcher that does not stop or advance (and leaves the state alone on the
+    frozen evaluation of a blank final record): over ANY file, the lines a run returns are exactly the records
+    the scan part denotes on which the match part — evaluated on the state its predecessors in the scan left —
+    votes yes (return-mode no-matches: votes no), in file order; [ret_step] = offer the line, keep it on a vote *)
+Theorem C01_run_returns : forall (C X : Type) (m : rs X -> line C -> rs X * bool) sh (c : cfg) E,
+  wf sh -> parse false (ast_of sh) = Some (scanner c) -> q_scan c = false -> end_line c = Some E ->
+  quiet C X m ->
+  (forall s, oeqb (end_line c) (pln X s) = true -> core X (fst (m (set_frozen X s) [])) = core X s) ->
+  (forall s l, frozen X (fst (m s l)) = frozen X s) ->
+  forall (recs : list (line C)) (x0 : X), end_of C recs = Some E -> will_run c = true ->
+  let r := run_from C X m c (rs0 X x0) None recs in
+  let F := fold_left (ret_step C X m c) (filter (want C sh) (number 0 recs)) (rs0 X x0, []) in
+  core X (st C X r) = core X (fst F) /\ returned C X r = snd F.
+Proof. exact run_returns_fold. Qed.
+Print Assumptions C01_run_returns.
+
+(** every CORE csvpath is such a matcher *)
+Theorem C01_core_run_returns : forall q blanks AND sh (c : cfg) E cs (recs : list (line ustring)) x0,
+  wf sh -> parse false (ast_of sh) = Some (scanner c) -> q_scan c = false -> end_line c = Some E ->
+  end_of ustring recs = Some E -> will_run c = true ->
+  let r := run_from ustring mx (core_m q blanks AND cs (Some E)) c (rs0 mx x0) None recs in
+  let F := fold_left (ret_step ustring mx (core_m q blanks AND cs (Some E)) c) (filter (want ustring sh) (number 0 recs)) (rs0 mx x0, []) in
+  core mx (st ustring mx r) = core mx (fst F) /\ returned ustring mx r = snd F.
+Proof. exact core_run_returns. Qed.
+Print Assumptions C01_core_run_returns.
 
 (** semantic half on CORE: the vote of a line is the conjunction (OR mode: disjunction) of the
     components' votes, each evaluated exactly once, left to right, on the state its predecessors left
